@@ -6,6 +6,8 @@ def run(chk):
     # `links` = "<links> <locals>" (loopsim.links_coq).  check_C04: at most once + classification + no
     # strangers on every trace; check_C04_complete: at least once, on settled traces, judged against
     # the model's own trace of the same scenario (loopsim.compare_build).
-    return run_loop_check(chk, lambda n, links, t: f"check_C04 {links} {t}", "mixed",
+    # check_C04_terminal_first: a terminal event already sent is handled before any later user message.
+    lo = lambda links: (links.split("] [")[0] + "]") if "] [" in links else links
+    return run_loop_check(chk, lambda n, links, t: f"andb (check_C04 {links} {t}) (check_C04_terminal_first {lo(links)} {t})", "mixed",
                           "supervision event missing, duplicated, misclassified or sent to a stranger",
                           complete_fn=lambda links, t: f"check_C04_complete {links} {t}")
